@@ -139,6 +139,10 @@ def run(ctx):
         for sp in (w, w.capitalize(), w.upper()):
             stmts.append(("common_parser", 'select "%s", a as "%s" from t where "%s" = 1 order by "%s"' % (sp, sp, sp, sp)))
             stmts.append(("common_parser", 'select x."%s" from "%s" as x group by x."%s"' % (sp, sp, sp)))
+    # every form of the TOP clause (value, PERCENT, WITH TIES, parenthesised / expression value), with the other select-list modifiers
+    for top in ("top 5", "top (5)", "top 5 percent", "top 5 with ties", "top 5 percent with ties", "top (n + 1) with ties", "top f(x) percent with ties", "top 0", "top 0 with ties"):
+        stmts.append(("common_parser", "select %s a, b from t order by b" % top))
+        stmts.append(("sqlserver_parser", "select %s * from t where a = 1" % top))
     base = json.load(open(BASELINE)) if os.path.exists(BASELINE) else []
     corpus = {hashlib.sha1((c["parser"] + "\0" + c["sql"]).encode()).hexdigest()[:16]: c for c in impl.corpus()}
     stmts += [(corpus[h]["parser"], corpus[h]["sql"]) for h in base if h in corpus]
